@@ -1049,6 +1049,14 @@ registry! {
     VecOptU64: Vec<Option<u64>>;
     BoxU32: Box<[u32]> { escape = |c| { let r: &'static [u32] = *AsRef::<&'static [u32]>::as_ref(c); slice_escape_deref(r).map(|(a, l, _)| (a, l, "asref-copy")) } };
     BoxString: Box<[String]>;
+    // containers whose ε-copy *items* own heap memory (a container that loses track of the items it has
+    // already built on an error path leaks them)
+    BoxVecString: Box<[Vec<String>]>;
+    VecVecString: Vec<Vec<String>>;
+    OptVecString: Option<Vec<String>> { variants = |r, s| vec![None, Some(Vec::gen(r, s))] };
+    BoundVecString: Bound<Vec<String>> { variants = |r, s| vec![Bound::Unbounded, Bound::Included(Vec::gen(r, s)), Bound::Excluded(Vec::gen(r, s))] };
+    CfVecStr: ControlFlow<Vec<String>, Box<[String]>> { variants = |r, s| vec![ControlFlow::Break(Vec::gen(r, s)), ControlFlow::Continue(<Box<[String]>>::gen(r, s))] };
+    EnumDVecStr: EnumD<Vec<String>> { variants = |r, s| (0..3).map(|v| EnumD::variant(v, r, s)).collect() };
     ArrU64x4: [u64; 4];
     ArrU8x3: [u8; 3];
     ArrArr: [[u16; 2]; 3];
@@ -1072,6 +1080,9 @@ registry! {
     BoundString: Bound<String> { variants = |r, s| vec![Bound::Unbounded, Bound::Included(String::gen(r, s)), Bound::Excluded(String::gen(r, s))] };
     CfU32U64: ControlFlow<u32, u64> { variants = |r, s| vec![ControlFlow::Break(u32::gen(r, s)), ControlFlow::Continue(u64::gen(r, s))] };
     CfStrVec: ControlFlow<String, Vec<u8>> { variants = |r, s| vec![ControlFlow::Break(String::gen(r, s)), ControlFlow::Continue(Vec::gen(r, s))] };
+    // sum types whose payload needs alignment padding right after the tag
+    CfVec: ControlFlow<Vec<u64>, Vec<u32>> { variants = |r, s| vec![ControlFlow::Break(Vec::gen(r, s + 1)), ControlFlow::Continue(Vec::gen(r, s + 1))] };
+    BoundVecU16: Bound<Vec<u16>> { variants = |r, s| vec![Bound::Unbounded, Bound::Included(Vec::gen(r, s + 1)), Bound::Excluded(Vec::gen(r, s + 1))] };
     ZeroSD: ZeroS;
     ZeroPD: ZeroP;
     Z32D: Z32;
